@@ -201,7 +201,7 @@ structure ReqF where
   body : Option Bytes                -- raw_content
   multipart : List (Bytes × Bytes)   -- r.multipart_form.items(multi=True) ([] when not multipart)
   urlencoded : List (Bytes × Bytes)  -- r.urlencoded_form.items(multi=True)
-  headers : List (Bytes × Bytes)     -- (lower-cased name, folded value)
+  headers : List (Bytes × Bytes)     -- r.headers.fields: (name, value) as received, in order
 deriving DecidableEq, Repr
 
 /-- what `_hash` adds to the key for the content: either `str(raw_content)`, or one tuple per non-ignored
@@ -224,8 +224,18 @@ structure MKey where
   headers : Option (List (Bytes × Option Bytes))
 deriving DecidableEq, Repr
 
+/-- `", ".join(values)` -/
+def joinCommaSpace : List Bytes → Bytes
+  | [] => []
+  | [v] => v
+  | v :: vs => v ++ [44, 32] ++ joinCommaSpace vs
+
+/-- `Headers.get(name)` (mitmproxy/http.py + coretypes/multidict.py): all fields whose name equals `name`
+    case-insensitively (`_kconv = lower`, ASCII names), folded with ", " (`_reduce_values`); `None` when there is none -/
 def hdrGet (hs : List (Bytes × Bytes)) (name : Bytes) : Option Bytes :=
-  (hs.find? (fun p => p.1 == asciiLower name)).map (·.2)
+  match (hs.filter (fun p => asciiLower p.1 == asciiLower name)).map (·.2) with
+  | [] => none
+  | vs => some (joinCommaSpace vs)
 
 def contentOf (o : HashOpts) (r : ReqF) : Content :=
   if !o.ignorePayloadParams.isEmpty && !r.multipart.isEmpty then
